@@ -7,6 +7,7 @@ require (
 	github.com/miekg/dns v1.1.72
 	github.com/mycoria/crop v0.3.1
 	github.com/mycoria/mycoria v0.0.0
+	github.com/zeebo/blake3 v0.2.4
 	golang.org/x/crypto v0.54.0
 	pgregory.net/rapid v1.3.0
 )
@@ -23,7 +24,6 @@ require (
 	github.com/vishvananda/netlink v1.3.1 // indirect
 	github.com/vishvananda/netns v0.0.5 // indirect
 	github.com/x448/float16 v0.8.4 // indirect
-	github.com/zeebo/blake3 v0.2.4 // indirect
 	go4.org/netipx v0.0.0-20231129151722-fdeea329fbba // indirect
 	golang.org/x/exp v0.0.0-20260709172345-9ea1abe57597 // indirect
 	golang.org/x/net v0.57.0 // indirect
